@@ -42,9 +42,13 @@ BGRAPH, SELFOBJ, NODEDATA, EDGEDATA, SGRAPH = ("BGraph",), ("SelfObject",), ("No
 STG = ("PathEncGraph",)
 def VarDictK(fam, K): return ("VarDictK", fam, K)
 K3, K2, K1 = ("Tuple", ("Node",), ("Node",), ("Int",)), ("Tuple", ("Int",), ("Int",)), ("Int",)
-KEYENC = {K3: ("vkey3", "eqb3"), K2: ("vkey2", "eqb2"), K1: ("vkey1", "Z.eqb")}
+KEYENC = {K3: ("vkey3", "eqb3"), K2: ("vkey2", "eqb2"), K1: ("vkey1", "Z.eqb"), ("Tuple", ("Node",), ("Node",)): ("vkeyE", "edge_eqb")}
 # name_prefix="<literal>" of self.solver.add_variables in the model classes -> variable family of Lin.v (the table of harness/e1.py)
-PREFIX_LITERAL = {"edge": "fEdge", "pi": "fPi", "w": "fW", "r": "fR", "position": "fPos", "path_length": "fLen"}
+PREFIX_LITERAL = {"edge": "fEdge", "pi": "fPi", "w": "fW", "r": "fR", "position": "fPos", "path_length": "fLen",
+                  "weights": "fW", "ee": "fErr", "slack": "fSlack", "gamma": "fGamma", "path_slack_scaled": "fFactor", "scaled_slack": "fSSlack"}
+# name / name_prefix f-strings handed to the wrapper helpers by the model classes: f"<literal>{i}" names the helper variables of layer i after
+# the variable V <family> [i] (harness/e1err.py reads the same names back: binary_scaled_slack_i<i> -> Bit (SSlack i) .., z_error_scale_<i> -> Zsel (Factor i) ..)
+HNAME_FSTRING = {"scaled_slack_i": "fSSlack", "error_scale_": "fFactor"}          # kLeastAbsErrors / kMinPathError name their weight columns "weights", the error columns "ee"
 ERASED = (("Attr",), ("Wrapper",), ("Str",), ("SelfObject",))        # parameters of these types do not appear in the Gallina signature
 EDGE = Tuple(NODE, NODE)
 DEDGE = Tuple(NODE, NODE, EDATA)
@@ -132,6 +136,44 @@ TARGETS["encode_kfdw"] = dict(
                         "self.optimization_options.get('optimize_with_flow_safe_paths', False)": ("opt_flow_safe_paths", BOOL)},
                  flows=True))
 
+# ---- kLeastAbsErrors: the pi / weight / error columns, the product rows, the two |f - sum pi| <= err rows per edge; the objective
+_ERR_IN = _PM_IN + [("edge_vars", VarDictK("fEdge", K3)), ("w_max", NUM), ("edges_to_ignore", Set(EDGE)), ("flow_attr", ATTR)]
+_ERR_OUT = [("edge_indexes_basic", List(EDGE)), ("edge_errors_vars", VarDictK("fErr", EDGE))]
+TARGETS["encode_klae"] = dict(
+    file="flowpaths/kleastabserrors.py", cls="kLeastAbsErrors", func="_encode_leastabserrors_decomposition", params=[SELFOBJ], defaults=[], ret=NONE, emits=True,
+    selfobj=dict(inputs=_ERR_IN + [("edge_indexes", List(K3)), ("path_indexes", List(K1)), ("edges_set_to_zero", Set(K3)), ("edges_set_to_one", Set(K3))],
+                 outputs=[("pi_vars", VarDictK("fPi", K3)), ("path_weights_vars", VarDictK("fW", K1))] + _ERR_OUT,
+                 calls={"self.weight_type == int": ("weight_is_int", BOOL)}, flows=True))
+TARGETS["encode_klae_given"] = dict(
+    file="flowpaths/kleastabserrors.py", cls="kLeastAbsErrors", func="_encode_leastabserrors_decomposition_with_given_weights", params=[SELFOBJ], defaults=[],
+    ret=NONE, emits=True,
+    selfobj=dict(inputs=_ERR_IN + [("solution_weights_superset", List(NUM)), ("original_k", INT), ("allow_empty_paths", BOOL)],
+                 outputs=list(_ERR_OUT), calls={"self.weight_type == int": ("weight_is_int", BOOL)}, flows=True))
+TARGETS["encode_klae_obj"] = dict(
+    file="flowpaths/kleastabserrors.py", cls="kLeastAbsErrors", func="_encode_objective", params=[SELFOBJ], defaults=[], ret=NONE, emits=True,
+    selfobj=dict(inputs=[("solver", WRAP), ("edge_errors_vars", VarDictK("fErr", EDGE)), ("edge_indexes_basic", List(EDGE)),
+                         ("edge_error_scaling", Dict(EDGE, NUM))], outputs=[], calls={}))
+
+# ---- kMinPathError: weight / pi / slack / gamma columns, (with path_length_factors) the factor columns with the piecewise-constant and
+# integer-product helpers, per non-ignored edge the pi and gamma product rows and the two rows |f - sum pi| * scaling <= sum gamma
+_MPE_IN = _ERR_IN + [("edge_indexes", List(K3)), ("path_indexes", List(K1)), ("edge_error_scaling", Dict(EDGE, NUM)), ("path_length_factors", List(NUM)),
+                     ("path_length_ranges", List(Tuple(NUM, NUM))), ("path_length_vars", VarDictK("fLen", K1))]
+_MPE_OUT = [("path_slacks_vars", VarDictK("fSlack", K1)), ("gamma_vars", VarDictK("fGamma", K3)),
+            ("slack_factors_vars", VarDictK("fFactor", K1)), ("scaled_slack_vars", VarDictK("fSSlack", K1))]
+TARGETS["encode_kmpe"] = dict(
+    file="flowpaths/kminpatherror.py", cls="kMinPathError", func="_encode_minpatherror_decomposition", params=[SELFOBJ], defaults=[], ret=NONE, emits=True,
+    selfobj=dict(inputs=_MPE_IN + [("edges_set_to_zero", Set(K3)), ("edges_set_to_one", Set(K3))],
+                 outputs=[("path_weights_vars", VarDictK("fW", K1)), ("pi_vars", VarDictK("fPi", K3))] + _MPE_OUT,
+                 calls={"self.weight_type == int": ("weight_is_int", BOOL)}, flows=True))
+TARGETS["encode_kmpe_given"] = dict(
+    file="flowpaths/kminpatherror.py", cls="kMinPathError", func="_encode_minpatherror_decomposition_with_given_weights", params=[SELFOBJ], defaults=[],
+    ret=NONE, emits=True,
+    selfobj=dict(inputs=_MPE_IN + [("solution_weights_superset", List(NUM)), ("original_k", INT), ("allow_empty_paths", BOOL)],
+                 outputs=list(_MPE_OUT), calls={"self.weight_type == int": ("weight_is_int", BOOL)}, flows=True))
+TARGETS["encode_kmpe_obj"] = dict(
+    file="flowpaths/kminpatherror.py", cls="kMinPathError", func="_encode_objective", params=[SELFOBJ], defaults=[], ret=NONE, emits=True,
+    selfobj=dict(inputs=[("solver", WRAP), ("k", INT), ("path_slacks_vars", VarDictK("fSlack", K1))], outputs=[], calls={}))
+
 # a query of stDiGraph on data networkx computed (condensation): the expressions below are inputs of the model
 TARGETS["is_scc_edge"] = dict(file="flowpaths/stdigraph.py", cls="stDiGraph", func="is_scc_edge", params=[SELFOBJ, NODE, NODE], defaults=[], ret=BOOL,
                               selfobj=dict(inputs=[], outputs=[],
@@ -209,6 +251,7 @@ def join(a, b, node=None):
     if b == BOT: return a
     if a in NUMERIC and b in NUMERIC:
         return a if NUMERIC[a] >= NUMERIC[b] else b
+    if a in (VAR, LEXP) and b in (VAR, LEXP): return LEXP        # a variable or a linear expression: a linear expression
     if a == NONE: return b if b[0] == "Opt" else Opt(b)
     if b == NONE: return a if a[0] == "Opt" else Opt(a)
     if a[0] == "Opt" and b[0] == "Opt": return Opt(join(a[1], b[1], node))
@@ -314,6 +357,7 @@ NUMOPS = {  # per numeric type: add sub ltb leb eqb max min
 }
 EXNS = {"ValueError": "ValueError", "KeyError": "KeyError", "TypeError": "TypeError", "RuntimeError": "RuntimeError",
         "IndexError": "IndexError", "Exception": "PyException"}
+# (UnboundLocalError is never raised explicitly; it guards the read of a loop variable after a loop that may not have run)
 LOG_METHODS = ("debug", "info", "warning", "error", "critical", "exception", "log")
 
 
@@ -409,6 +453,7 @@ class Fn:
         self.locals = []         # assigned names in order of first assignment
         self.loopvars = []       # loop targets in order (one entry per binding occurrence)
         self.for_names = {}      # id(For node) -> generated names of its targets
+        self.for_iters = {}      # loop-target name -> the iterated expressions (ast.dump) of all loops that bind it
         def targets_of_for(t):
             if isinstance(t, ast.Name): return [t.id]
             if isinstance(t, ast.Tuple) and all(isinstance(x, ast.Name) for x in t.elts): return [x.id for x in t.elts]
@@ -442,6 +487,7 @@ class Fn:
                 elif isinstance(s, ast.For):
                     ns = targets_of_for(s.target)
                     if len(set(ns)) != len(ns): raise Unsupported("loop target repeats a name", s)
+                    for n in ns: self.for_iters.setdefault(n, []).append(ast.dump(s.iter))
                     self.for_names[id(s)] = []
                     for n in ns:       # every loop gets fresh i<k> names; the same Python name may be reused by a LATER loop
                         self.for_names[id(s)].append("i%d" % len(self.loopvars))
@@ -482,6 +528,11 @@ class Fn:
         if n in env["bound"]:
             return env["bound"][n][0], env["bound"][n][1], []
         if n in self.loopvars:
+            # f"...{i}..." after `for i in <list>`: the value only ends up in a name, but Python raises UnboundLocalError when no
+            # iteration ever bound i.  Exact when EVERY loop that binds the name runs over the same (stable) list expression — it is bound iff
+            # that list is non-empty — and one of them precedes the read in this block.
+            if env.get("in_fstring") and n in env.get("postloop", {}) and len(set(self.for_iters.get(n, []))) == 1:
+                return "tt", STR, [("(py_list_is_empty %s)" % env["postloop"][n], "UnboundLocalError")]
             raise Unsupported("read of loop variable %r outside its loop" % n, e)
         if n in self.params:
             return self.aname[n], self.ptype[n], []
@@ -500,7 +551,9 @@ class Fn:
         for v in e.values:
             if isinstance(v, ast.FormattedValue):
                 if v.format_spec is not None or v.conversion != -1: raise Unsupported("format specification in an f-string", e)
-                t, ty, gg = self.expr(v.value, env)       # Python evaluates it; its value only ends up in a name
+                f0 = env.get("in_fstring"); env["in_fstring"] = isinstance(v.value, ast.Name)
+                try: t, ty, gg = self.expr(v.value, env)       # Python evaluates it; its value only ends up in a name
+                finally: env["in_fstring"] = f0
                 g += gg
         return "tt", STR, g
 
@@ -553,6 +606,12 @@ class Fn:
         if isinstance(e.op, ast.USub) and isinstance(e.operand, ast.Constant) and isinstance(e.operand.value, int) \
                 and not isinstance(e.operand.value, bool):
             return "(%d)%%Z" % (-e.operand.value), INT, []
+        if isinstance(e.op, ast.USub):
+            t, ty, g = self.expr(e.operand, env)
+            if ty == INT: return "(Z.opp %s)" % t, INT, g
+            if ty == NUM: return "(Qopp %s)" % t, NUM, g
+            if ty in (VAR, LEXP) and self.emits: return "(LScale (-1#1)%%Q %s)" % coerce(t, ty, LEXP, e), LEXP, g
+            raise Unsupported("unary minus on a value of type %s" % show(ty), e)
         raise Unsupported("unary operator %s" % type(e.op).__name__, e)
 
     def e_BoolOp(self, e, env):
@@ -714,13 +773,34 @@ class Fn:
         if e.keys: raise Unsupported("dict literal with entries", e)
         return "[]", Dict(BOT, BOT), []
 
+    def cond_key(self, test):
+        """(key, polarity) of a stable condition: len(X) > 0 / len(X) == 0 / not C are recognised as one condition and its negation"""
+        if not self.stable_condition(test): return None
+        pol = True
+        while isinstance(test, ast.UnaryOp) and isinstance(test.op, ast.Not):
+            test = test.operand; pol = not pol
+        if isinstance(test, ast.Compare) and len(test.ops) == 1 and isinstance(test.comparators[0], ast.Constant) and test.comparators[0].value == 0 \
+                and not isinstance(test.comparators[0].value, bool) and isinstance(test.left, ast.Call) and isinstance(test.left.func, ast.Name) and test.left.func.id == "len":
+            if isinstance(test.ops[0], ast.Gt): return ("len0", ast.dump(test.left)), pol
+            if isinstance(test.ops[0], ast.Eq): return ("len0", ast.dump(test.left)), not pol
+        return ("test", ast.dump(test)), pol
+
     def e_IfExp(self, e, env):
         t, ty, g = self.expr(e.test, env)
         if ty != BOOL: raise Unsupported("condition of type %s" % show(ty), e.test)
-        a, aty, ag = self.expr(e.body, env); b, bty, bg = self.expr(e.orelse, env)
-        if ag or bg: raise Unsupported("partial operation evaluated conditionally (branch of a conditional expression)", e)
+        d0 = env["defined"]; ck = self.cond_key(e.test)
+        if ck is not None: env["defined"] = d0 | env["cond_defs"].get((ck[0], ck[1]), set())
+        try: a, aty, ag = self.expr(e.body, env)
+        finally: env["defined"] = d0
+        if ck is not None: env["defined"] = d0 | env["cond_defs"].get((ck[0], not ck[1]), set())
+        try: b, bty, bg = self.expr(e.orelse, env)
+        finally: env["defined"] = d0
         rty = join(aty, bty, e)
-        return "(if %s then %s else %s)" % (t, coerce(a, aty, rty, e), coerce(b, bty, rty, e)), rty, g
+        term = "(if %s then %s else %s)" % (t, coerce(a, aty, rty, e), coerce(b, bty, rty, e))
+        # both branches perform the same partial operations (in the same order): whichever is taken fails exactly when they do
+        if ag == bg: return term, rty, g + ag
+        # otherwise a partial operation of a branch fails only when that branch is the one evaluated
+        return term, rty, g + [("(andb %s %s)" % (t, x), ex) for x, ex in ag] + [("(andb (negb %s) %s)" % (t, x), ex) for x, ex in bg]
 
     def is_pairs_idiom(self, e, env):
         """[(p[i], p[i+1]) for i in range(len(p) - 1)] with p a name of list type; returns (term, elem type, guards) or None"""
@@ -785,7 +865,7 @@ class Fn:
         pats = []; its = []; ig = []; bound_now = []
         try:
             for gi, g in enumerate(e.generators):
-                if g.ifs or g.is_async: raise Unsupported("comprehension with a filter", e)
+                if g.is_async or (g.ifs and len(e.generators) != 1): raise Unsupported("comprehension with a filter and a second generator / async", e)
                 it, ity, gg = self.expr(g.iter, env)
                 if ity[0] != "List": raise Unsupported("comprehension over a value of type %s" % show(ity), e)
                 if gi == 1 and gg: raise Unsupported("partial operation in the second generator of a comprehension", g.iter)
@@ -802,7 +882,13 @@ class Fn:
                         raise Unsupported("comprehension variable %r shadows another name" % v, e)
                     c = "c%d" % env["ncomp"][0]; env["ncomp"][0] += 1
                     env["bound"][v] = (c, ty, self.src_key(g.iter) if len(names) == 1 else None); bound_now.append(v); cn.append(c)
-                pats.append(cn[0] if len(cn) == 1 else "'(" + ", ".join(cn) + ")"); its.append(it)
+                pat = cn[0] if len(cn) == 1 else "'(" + ", ".join(cn) + ")"
+                for cond in g.ifs:          # [.. for v in L if C]: the elements of L that satisfy C, in order
+                    ct, cty, cg = self.expr(cond, env)
+                    if cty != BOOL: raise Unsupported("comprehension filter of type %s" % show(cty), cond)
+                    if cg: raise Unsupported("partial operation in a comprehension filter", cond)
+                    it = "(filter (fun %s => %s) %s)" % (pat, ct, it)
+                pats.append(pat); its.append(it)
             t, ty, tg = self.expr(e.elt, env)
         finally:
             for v in bound_now: del env["bound"][v]
@@ -859,6 +945,8 @@ class Fn:
                 t, ty, g = self.expr(e.args[0], env)
                 if ty == List(NUM): return "(py_sum %s)" % t, NUM, g
                 if ty == List(INT): return "(py_sum (map inject_Z %s))" % t, NUM, g        # an int in Python; only used as a number here
+                if self.emits and ty == List(VAR): return "(py_sum_lexp (map LVar %s))" % t, LEXP, g      # 0 + v0 + v1 + ...
+                if self.emits and ty == List(LEXP): return "(py_sum_lexp %s)" % t, LEXP, g
                 raise Unsupported("sum of a value of type %s" % show(ty), e)
             if n == "zip" and len(e.args) == 2 and not e.keywords:
                 a, aty, ag = self.expr(e.args[0], env); b, bty, bg = self.expr(e.args[1], env)
@@ -1130,13 +1218,22 @@ class Fn:
         names = [a.arg for a in fs[0].args.args]
         if len(names) != len(cs["params"]) or fs[0].args.defaults: raise Unsupported("signature of the callee %s" % m, e)
         b = self.bind_args(e, names[1:], {})
+        site = names[1:1 + len(e.args)] + [k.arg for k in e.keywords]        # Python evaluates the arguments in the order written at the call site
+        if site != [n for n in names[1:] if n in site]: raise Unsupported("keyword arguments of self.%s not in the order of its signature (evaluation order)" % m, e)
         args = []; g = []
         for n, ty in list(zip(names, cs["params"]))[1:]:
             t, aty, gg = self.expr(b[n], env); g += gg
             if ty in ERASED:
                 if aty not in (STR, HNAME): raise Unsupported("argument %r of type %s" % (n, show(aty)), b[n])
                 continue
-            if ty == HNAME and aty != HNAME: raise Unsupported("argument %r of type %s" % (n, show(aty)), b[n])
+            if ty == HNAME and aty != HNAME:
+                nd = b[n]
+                if not (isinstance(nd, ast.JoinedStr) and len(nd.values) == 2 and isinstance(nd.values[0], ast.Constant) and nd.values[0].value in HNAME_FSTRING
+                        and isinstance(nd.values[1], ast.FormattedValue) and nd.values[1].format_spec is None and nd.values[1].conversion == -1):
+                    raise Unsupported("argument %r of type %s (helper names: only f\"<%s>{i}\")" % (n, show(aty), "|".join(HNAME_FSTRING)), b[n])
+                it_, ity_, ig_ = self.expr(nd.values[1].value, env)
+                if ity_ != INT or ig_: raise Unsupported("helper name built from a value of type %s" % show(ity_), nd)
+                args.append("(V %s (vkey1 %s))" % (HNAME_FSTRING[nd.values[0].value], it_)); continue
             args.append(coerce(t, aty, ty, b[n]) if aty != ty else t)
             if aty != ty and not (aty in NUMERIC and ty in NUMERIC): raise Unsupported("argument %r of type %s, expected %s" % (n, show(aty), show(ty)), b[n])
         if callee not in self.callees: self.callees.append(callee)
@@ -1317,7 +1414,7 @@ class Fn:
                 nar = ("self." + self.self_attr(s.test.left), isinstance(s.test.ops[0], ast.IsNot))
             narrow0 = dict(env.get("narrow", {}))
             # an earlier `if <same stable condition>:` assigned attributes / locals: they are assigned here as well
-            ckey = ast.dump(s.test) if self.stable_condition(s.test) else None
+            ck = self.cond_key(s.test); ckey = (ck[0], ck[1]) if ck is not None else None
             if ckey is not None and ckey in env["cond_defs"]: env["defined"] = env["defined"] | env["cond_defs"][ckey]
             if nar and nar[1]: env["narrow"] = dict(narrow0, **{nar[0]: True})
             a, fa = self.block(s.body, env); da = env["defined"]; ala = env["aliased"]
@@ -1356,10 +1453,30 @@ class Fn:
     def ind(self, txt):
         return "\n".join("  " + l for l in ("(" + txt + ")").splitlines())
 
+    def stable_iter(self, node):
+        """an iterated expression that denotes the same list every time it is evaluated during the call: range / len of input attributes"""
+        for n in ast.walk(node):
+            if isinstance(n, ast.Name) and n.id != self.sparam and n.id not in ("len", "range"): return False
+            if isinstance(n, ast.Attribute) and (self.self_attr(n) is None or self.self_attr(n) in self.s_out or self.self_attr(n) not in self.s_in): return False
+            if isinstance(n, ast.Call) and not (isinstance(n.func, ast.Name) and n.func.id in ("len", "range")): return False
+            if isinstance(n, (ast.Subscript, ast.ListComp, ast.GeneratorExp, ast.Lambda)): return False
+        return self.sparam is not None
+
     def block(self, stmts, env):
+        terms = []; falls = True
+        pl0 = dict(env.get("postloop", {}))
+        try:
+            return self.block_(stmts, env)
+        finally:
+            env["postloop"] = pl0
+
+    def block_(self, stmts, env):
         terms = []; falls = True
         for s in stmts:
             t, f = self.stmt(s, env)
+            if isinstance(s, ast.For) and isinstance(s.target, ast.Name) and self.stable_iter(s.iter) and not self.own_breaks(s.body):
+                it, _, ig = self.expr(s.iter, env)
+                if not ig: env["postloop"] = dict(env.get("postloop", {}), **{s.target.id: it})     # after the loop the name is bound iff the list was non-empty
             if t is not None: terms.append(t)
             if not f: falls = False        # later statements are dead code but are still translated
         if not terms: return "py_skip", falls
@@ -1374,7 +1491,7 @@ class Fn:
         ret = BOT
         final = {}; final_ret = None
         for rnd in range(8):
-            env = dict(vt=dict(vt), defined=set(self.state_params) | {"self." + a for a in self.s_out if a in self.s_in}, bound={}, inloop=False, ret=[ret], final=final, final_ret=final_ret, ncomp=[0], aliased=set(), iterating=set(), cond_defs={}, narrow={})
+            env = dict(vt=dict(vt), defined=set(self.state_params) | {"self." + a for a in self.s_out if a in self.s_in}, bound={}, inloop=False, ret=[ret], final=final, final_ret=final_ret, ncomp=[0], aliased=set(), iterating=set(), cond_defs={}, narrow={}, postloop={})
             body, falls = self.block(self.fdef.body, env)
             if env["vt"] == vt and env["ret"][0] == ret:
                 break
@@ -1393,7 +1510,7 @@ class Fn:
         order = sorted(self.locals, key=lambda n: (gty(vt[n]), self.locals.index(n)))
         self.xname = {n: "x%d" % i for i, n in enumerate(order)}
         self.locals_in_field_order = order
-        env = dict(vt=dict(vt), defined=set(self.state_params) | {"self." + a for a in self.s_out if a in self.s_in}, bound={}, inloop=False, ret=[ret], final=vt, final_ret=ret, ncomp=[0], aliased=set(), iterating=set(), cond_defs={}, narrow={})
+        env = dict(vt=dict(vt), defined=set(self.state_params) | {"self." + a for a in self.s_out if a in self.s_in}, bound={}, inloop=False, ret=[ret], final=vt, final_ret=ret, ncomp=[0], aliased=set(), iterating=set(), cond_defs={}, narrow={}, postloop={})
         self.callees = []
         body, falls = self.block(self.fdef.body, env)
         if env["vt"] != vt: raise Unsupported("type inference unstable in the emission pass", self.fdef)
@@ -1497,7 +1614,11 @@ REJECT = {
     "sum()": "return sum(edge_lengths.get(e, 1) for e in seq)",
     "any()": "r = 0\nif any(e in seq for e in seq):\n    r = 1\nreturn r",
     "comprehension with three generators": "s = [e for e in seq for f in seq for g in seq]\nreturn 0",
-    "comprehension with a filter": "s = [e for e in seq if e in edge_lengths]\nreturn 0",
+    "comprehension filter with a partial operation": "s = [e for e in seq if edge_lengths[e] > 0]\nreturn 0",
+    "comprehension filter with two generators": "s = [e for p in paths_in_DAG for e in seq if e in edge_lengths]\nreturn 0",
+    "comprehension filter that is not a boolean": "s = [e for e in seq if len(seq)]\nreturn 0",
+    "loop variable in an f-string after a loop over a local list": "for e in seq:\n    pass\nraise ValueError(f'{e}')",
+    "unary minus on a list": "s = -seq\nreturn 0",
     "dict comprehension": "s = {e: 1 for e in seq}\nreturn 0",
     "partial operation in the second generator": "s = [f for e in seq for f in paths_in_DAG[0]]\nreturn 0",
     "filtered pairs": "r = 0\nfor p in paths_in_DAG:\n    s = [(p[i], p[i + 1]) for i in range(len(p) - 1) if i]\nreturn r",
